@@ -27,6 +27,7 @@ func main() {
 	replay := flag.String("replay", "", "re-evaluate the obligation recorded in a violation file")
 	verbose := flag.Bool("v", false, "print every obligation")
 	noSelf := flag.Bool("noselftest", false, "thorough tier without the seeded-variant self-validation")
+	matrix := flag.Bool("matrix", false, "run the quick tier of every property on one load of -repo; prints '##PROP <id>' before and '##EXIT <id> <code>' after each report (used by the catalogue scripts)")
 	flag.Parse()
 
 	vdir := *verif
@@ -100,6 +101,9 @@ func main() {
 	}
 	if *replay != "" {
 		os.Exit(doReplay(*replay, *repo, vdir))
+	}
+	if *matrix {
+		os.Exit(doMatrix(*repo, vdir))
 	}
 	pc, ok := rules.Registry[*prop]
 	if !ok {
@@ -194,4 +198,48 @@ func doReplay(path, repo, vdir string) int {
 	}
 	fmt.Printf("replay %s: obligation %q no longer produced on this tree\n", prop, ob.Key())
 	return 0
+}
+
+// doMatrix runs every property's quick tier on one loaded World (the verdict logic is the same as
+// for a single property: Outcome.Finish against the known findings of vdir).
+func doMatrix(repo, vdir string) int {
+	findings, err := core.LoadFindings(filepath.Join(vdir, "known_findings.json"))
+	if err != nil && !os.IsNotExist(err) {
+		fmt.Println("ERROR known_findings.json: " + err.Error())
+		return 2
+	}
+	var ids []string
+	for id := range rules.Registry {
+		ids = append(ids, id)
+	}
+	sort.Strings(ids)
+	w, lerr := core.Load(repo, core.BuildConfig{})
+	worst := 0
+	for _, id := range ids {
+		pc := rules.Registry[id]
+		out := &core.Outcome{Prop: id, Tier: "quick", Start: time.Now(), VerifDir: vdir,
+			Explain: pc.Explain, NotDecided: pc.NotDecided, Assume: pc.Assume,
+			Callgraph: "CHA over P_L (SSA program rooted at the 14 library packages and their dependencies)"}
+		fmt.Printf("##PROP %s\n", id)
+		if lerr != nil {
+			out.Fatal = lerr.Error()
+		} else {
+			func() {
+				defer func() {
+					if e := recover(); e != nil {
+						out.Fatal = fmt.Sprintf("internal panic: %v", e)
+					}
+				}()
+				r := core.NewReport(id, w)
+				pc.Run(w, r)
+				out.Merge(r)
+			}()
+		}
+		code := out.Finish(findings)
+		fmt.Printf("##EXIT %s %d\n", id, code)
+		if code > worst {
+			worst = code
+		}
+	}
+	return worst
 }
